@@ -57,6 +57,7 @@ type Contract struct {
 	Lets     map[string]ast.Expr
 	RecFuns  []*Pred
 	Pkg      string // package of the file the contract was written in ("" for /verif/libcontracts)
+	GuardTriggers bool // quantified clauses of the form imp(guard, body) use the guard as E-matching trigger
 }
 
 // ImmutableDecl: fields of a struct type that are written only by the listed
@@ -114,6 +115,7 @@ func (ss *SpecSet) parseFile(path string, trusted bool, pkgName string) {
 	var pending *strings.Builder
 	var curPred *Pred
 	var curLet string
+	fileGuardTriggers := false
 	lineNo := 0
 	curAlt := ""
 	finish := func() {
@@ -186,13 +188,19 @@ func (ss *SpecSet) parseFile(path string, trusted bool, pkgName string) {
 			case "funcfield":
 				full = "funcfield:" + key
 			}
-			cur = &Contract{Key: full, Kind: kind, Loops: map[int]*LoopSpec{}, Trusted: trusted, File: path, Line: lineNo, Unproved: map[string]string{}, Lets: map[string]ast.Expr{}, Pkg: pkgName}
+			cur = &Contract{Key: full, Kind: kind, Loops: map[int]*LoopSpec{}, Trusted: trusted, File: path, Line: lineNo, Unproved: map[string]string{}, Lets: map[string]ast.Expr{}, Pkg: pkgName, GuardTriggers: fileGuardTriggers}
 			if _, dup := ss.Contracts[full]; dup {
 				ss.Errors = append(ss.Errors, fmt.Sprintf("%s:%d: duplicate contract %s", path, lineNo, full))
 			}
 			ss.Contracts[full] = cur
 			ss.Order = append(ss.Order, full)
 			curAlt = ""
+			continue
+		case "option":
+			finish()
+			if len(fields) > 1 && fields[1] == "guard-triggers" {
+				fileGuardTriggers = true
+			}
 			continue
 		case "ghost":
 			finish()
